@@ -241,3 +241,42 @@ def run(rep, facts, tier):
             rep.check(ok, 'R20.4', 'wait_for_acknowledgments/ok-true#%d' % n_true, 'Ok(true) only after try_recv() == Ok(token), or for a non-reliable writer',
                       'the synchronous wait can report success without having received the completion token', wf.where(bb, si))
     rep.floor('R20.4', n_true, 2, 'Ok(true) results of wait_for_acknowledgments')
+
+    # ------------------------------------------------------------ R20.5
+    rule_20_5(rep, fx)
+
+
+def rule_20_5(rep, fx):
+    """The async wait is a small state machine that swaps the placeholder `Done` into itself while it works. `Done` means "all acknowledged": it must never be what a
+    pending future is left in."""
+    rep.rule('R20.5', 'async wait state pairing: in AsyncWaitForAcknowledgments::poll, once the placeholder Done has been swapped into *self, every path that returns Poll::Pending first '
+                      'stores a waiting state (not Done) back; otherwise the next poll reports Ok(true) although the command never reached the writer and nothing was acknowledged')
+    bs = [x for x in fx.bodies if x.key.startswith('<dds::with_key::datawriter::AsyncWaitForAcknowledgments') and x.key.endswith('::poll')]
+    if len(bs) != 1:
+        raise CheckBroken('AsyncWaitForAcknowledgments::poll not found (%d)' % len(bs))
+    b = bs[0]
+    rep.analysed(b)
+    P = Pos(b)
+    og = Origins(b, summaries=False)
+    ADT = 'dds::with_key::datawriter::AsyncWaitForAcknowledgments'
+    swaps = [(bb, 'term') for bb, t in b.calls() if callee_res(t).endswith('mem::swap') and
+             any(term_has(og.of_operand(a, bb, 'term'), lambda x: x[0] == 'agg' and str(x[1]).startswith(ADT) and str(x[1]).endswith('::Done')) for a in t['args'])]
+    # stores of a non-Done state through the pinned self
+    restores = []
+    for bb, si, st in b.statements():
+        if st['s'] == 'assign' and st['lhs'].get('p') == ['*']:
+            v = og._rvalue(st['rv'], bb, si, 0)
+            if v[0] == 'agg' and str(v[1]).startswith(ADT) and not str(v[1]).endswith('::Done'):
+                restores.append((bb, si))
+    pendings = [(bb, si) for bb, si, st in b.statements() if st['s'] == 'assign' and st['lhs']['l'] == 0 and not st['lhs'].get('p') and st['rv']['r'] == 'agg'
+                and st['rv'].get('variant') == 'Pending']
+    ok = bool(swaps) and bool(restores) and bool(pendings)
+    n = 0
+    for sw in swaps:
+        for pd in pendings:
+            if P.can_reach(sw, pd):
+                n += 1
+                if P.can_reach(sw, pd, avoid_pos=restores):
+                    ok = False
+    rep.check(ok and n >= 1, 'R20.5', 'AsyncWaitForAcknowledgments::poll/state-restored-before-pending', '%d swap -> Pending path group(s), each stores a waiting state back' % n,
+              'AsyncWaitForAcknowledgments::poll can return Pending with the placeholder state Done left in the future: the next poll completes with Ok(true) without any acknowledgment', b.where())
